@@ -379,6 +379,13 @@ func trimStack(b []byte) string {
 	return strings.Join(out, "\n")
 }
 
+// Unsettled is returned by an exec function when a case cannot be judged.
+type Unsettled struct{ Why string }
+
+func (u *Unsettled) Error() string { return "inconclusive: " + u.Why }
+
+var inconclusiveOnce sync.Once
+
 // Run drives one unit: draw a plain-data history with rapid, execute it with
 // the pure function exec, and on failure save the (shrunk) history as the
 // replay file and report the violation. It first replays $VERIF_REPLAY / the
@@ -426,6 +433,14 @@ func Run[H any](t *testing.T, rec *Rec, draw func(*rapid.T) H, exec func(h H, re
 	rapid.Check(t, func(rt *rapid.T) {
 		h := draw(rt)
 		if err := Catch(func() error { return exec(h, rec) }); err != nil {
+			if inc, ok := err.(*Unsettled); ok {
+				// the case could not be judged for a reason outside this
+				// property (resource, time bound, a failure that belongs to
+				// another property): never a violation
+				rec.Count("inconclusive_cases", 1)
+				inconclusiveOnce.Do(func() { Inconclusive(rec.ID, rec.Unit+": "+inc.Why) })
+				return
+			}
 			last, lastErr = SaveReplay(rec.ID, rec.Unit, h, err), err.Error()
 			rt.Fatalf("%v", err)
 		}
